@@ -1,4 +1,5 @@
 import Dcg.Proofs.Sem
+import Dcg.Proofs.CopyTypes
 /-
 C03 — every instance valid under the schema is accepted by the generated model.
 
@@ -13,6 +14,8 @@ interpretation of patterns, as long as BOTH sides use the same one (pydantic-v1 
 OpenAPI discriminators (`Schema.disc`, with or without `mapping`) are constructors of
 `Dcg.Sem.Schema` and are covered by `valid_accepted_partial`; `discriminated_valid_accepted` spells the
 discriminator case out.
+`required` NEXT TO `allOf` naming an INHERITED member: the subclass gets a copy of the base's member
+(`Parser.__override_required_field`, `_copy_data_types`; Dcg/Model/CopyTypes.lean) — last section.
 -/
 namespace Dcg.Props.C03
 open Dcg.Sem Dcg.Sem.Pyd Dcg.Model.Constraints Dcg.Model.Translate Dcg.Proofs.Sem
@@ -237,5 +240,106 @@ theorem nullable_lost_rejects_null :
     acceptsTy .v2 (fun _ _ => true) 6 [] (tr .v2 {} .plain (.dict (.ndict .any))) (.obj [("k".toList, .null)]) = .accept ∧
     acceptsTy .v2 (fun _ _ => true) 6 [] (.dict (.dict .any)) (.obj [("k".toList, .null)]) = .reject := by
   decide +kernel
+
+/-! ### an INHERITED member re-declared as required (`required` next to `allOf` naming a member of a base class)
+
+`Parser.__override_required_field` gives the subclass a copy of the base's field whose data type TREE is copied
+by `_copy_data_types` (Dcg/Model/CopyTypes.lean: `overrideField`, `overrideType`, `copyList`). The subclass's
+member must accept exactly what the base's member accepts, apart from being required — whatever is nested in the
+type: `List[Optional[str]]`, `Dict[str, Optional[int]]`, `List[List[Optional[float]]]`, unions, constrained types,
+references. -/
+section InheritedMemberCopy
+open Dcg.Model.CopyTypes Dcg.Proofs.CopyTypes
+
+/-- FULL STRENGTH: the data type of the re-declared member is the data type of the base's member, for EVERY tree.
+Kept visible; FALSE of the code as a statement about arbitrary trees (a node that carries a `reference` is
+re-built through the constructor with `reference=` only, see `copy_faithful_false_decorated_reference`) — the
+jsonschema parser never builds such a node (`is_optional`, the container flags and `kwargs` are set on nodes
+without a reference; the correspondence campaign counts `plainRefs` on every harvested tree). -/
+def CopyFaithful : Prop := ∀ (dflt : Attrs) (t : DT), overrideType dflt t = t
+
+/-- PARTIAL (unbounded in depth and width of the type tree; every attribute vector at every node; every class
+default `dflt`): when the reference nodes of the base member's type are plain (`plainRefs`, decidable), the
+re-declared member has the SAME data type tree — every `is_optional`, container flag, constraint `kwargs`,
+`type`, literal list and `dict_key`, at every level — the same name and the same remaining content, and is
+required. -/
+theorem override_keeps_type_partial (dflt : Attrs) (f : MField) (h : plainRefs dflt f.ty = true) :
+    (overrideField dflt f).ty = f.ty ∧ (overrideField dflt f).required = true ∧
+    (overrideField dflt f).name = f.name ∧ (overrideField dflt f).other = f.other :=
+  ⟨overrideType_id dflt f.ty h, rfl, rfl, rfl⟩
+
+/-- …the same for the helper itself: `_copy_data_types(ts) = ts` (as trees) for every list of trees with plain
+reference nodes, at every nesting depth. -/
+theorem copy_data_types_identity (dflt : Attrs) (ts : List DT) (h : plainRefsList dflt ts = true) :
+    copyList dflt ts = ts :=
+  copyList_id dflt ts h
+
+/-- …hence the subclass's member ACCEPTS EXACTLY what the base's member accepts: for every style, regex oracle,
+fuel, environment and JSON value the verdict on the copied type is the verdict on the original one (three-valued:
+accept, reject and the lax zone alike). `toTy` reads a data type tree as an IR type; the statement follows from
+the equality of the trees and holds for every such reading. -/
+theorem override_accepts_same (st : Style) (re : Regex) (g : Nat) (D : IRDefs) (dflt : Attrs) (f : MField)
+    (h : plainRefs dflt f.ty = true) (v : Json) :
+    acceptsTy st re g D (toTy (overrideField dflt f).ty) v = acceptsTy st re g D (toTy f.ty) v := by
+  rw [(override_keeps_type_partial dflt f h).1]
+
+/-- `List[Optional[str]]` as the parser builds it: wrapper node → list node → optional node → `str` -/
+def listOptStr : DT :=
+  .node none {} [.node none { isList := true } [.node none { isOptional := true } [.node none { type := some "str".toList } []]]]
+/-- `Dict[str, Optional[int]]`: the member node itself is the dict node -/
+def dictOptInt : DT :=
+  .node none { isDict := true } [.node none { isOptional := true } [.node none { type := some "int".toList } []]]
+/-- `List[List[Optional[float]]]` with the `null` written as a union alternative inside a wrapper -/
+def listListOptFloat : DT :=
+  .node none {} [.node none { isList := true } [.node none {} [.node none { isList := true }
+    [.node none { isOptional := true } [.node none { type := some "float".toList } []]]]]]
+/-- `Dict[str, List[Optional[Part]]]`: a reference under two containers and an optional node -/
+def dictListOptRef : DT :=
+  .node none { isDict := true } [.node none {} [.node none { isList := true }
+    [.node none { isOptional := true } [.node (some "Part".toList) {} []]]]]
+def memberOf (t : DT) : MField := ⟨"tags".toList, false, [], t⟩
+
+/-- non-vacuity: the hypothesis holds for these nested trees (with a reference among them), the copy is
+required, and the types accept `null` at the nested place -/
+example : plainRefs {} listOptStr = true ∧ plainRefs {} dictOptInt = true ∧ plainRefs {} listListOptFloat = true ∧
+    plainRefs {} dictListOptRef = true ∧ (overrideField {} (memberOf dictListOptRef)).required = true ∧
+    acceptsTy .v2 (fun _ _ => true) 8 [] (toTy (overrideField {} (memberOf listOptStr)).ty)
+      (.arr [.str "a".toList, .null]) = .accept ∧
+    acceptsTy .v1 (fun _ _ => true) 8 [] (toTy (overrideField {} (memberOf dictOptInt)).ty)
+      (.obj [("x".toList, .num ⟨1, 0⟩), ("y".toList, .null)]) = .accept ∧
+    acceptsTy .v2 (fun _ _ => true) 8 [] (toTy (overrideField {} (memberOf listListOptFloat)).ty)
+      (.arr [.arr [.num ⟨15, 1⟩, .null], .arr []]) = .accept ∧
+    acceptsTy .v2 (fun _ _ => true) 8 [] (toTy (overrideField {} (memberOf listOptStr)).ty)
+      (.arr [.num ⟨1, 0⟩]) ≠ .accept := by
+  decide +kernel
+
+/-- WITNESS that the container nodes must be COPIED, not re-built: a copy that builds a nested container node
+through the constructor and hands over only `is_list` / `is_set` / `is_dict` / `dict_key` (`rebuildType`) turns
+`List[Optional[str]]` into `List[str]`, `Dict[str, Optional[int]]` into `Dict[str, int]`, and
+`List[List[Optional[float]]]` into `List[List[float]]`: instances that are valid under the schema of the base's
+member — and that the base's member accepts — are rejected by the subclass. -/
+theorem rebuilt_container_rejects_valid :
+    validJ (fun _ _ => true) 4 [] (.array (.scalar .string true {}) none none) (.arr [.str "a".toList, .null]) = true ∧
+    acceptsTy .v2 (fun _ _ => true) 8 [] (toTy listOptStr) (.arr [.str "a".toList, .null]) = .accept ∧
+    acceptsTy .v2 (fun _ _ => true) 8 [] (toTy (rebuildType {} listOptStr)) (.arr [.str "a".toList, .null]) = .reject ∧
+    validJ (fun _ _ => true) 4 [] (.dict (.scalar .integer true {})) (.obj [("y".toList, .null)]) = true ∧
+    acceptsTy .v2 (fun _ _ => true) 8 [] (toTy dictOptInt) (.obj [("y".toList, .null)]) = .accept ∧
+    acceptsTy .v2 (fun _ _ => true) 8 [] (toTy (rebuildType {} dictOptInt)) (.obj [("y".toList, .null)]) = .reject ∧
+    acceptsTy .v1 (fun _ _ => true) 8 [] (toTy listListOptFloat) (.arr [.arr [.null]]) = .accept ∧
+    acceptsTy .v1 (fun _ _ => true) 8 [] (toTy (rebuildType {} listListOptFloat)) (.arr [.arr [.null]]) = .reject := by
+  decide +kernel
+
+/-- REFUTATION of `CopyFaithful` over arbitrary trees: a node that carries a reference AND `is_optional` comes
+back without the flag (`data_type_.__class__(reference=…)`). Not a finding about /repo: no parser builds such a
+node (see `CopyFaithful`); it is why `plainRefs` is a hypothesis. -/
+theorem copy_faithful_false_decorated_reference : ¬ CopyFaithful := by
+  intro h
+  have := h {} (.node (some "Part".toList) { isOptional := true } [])
+  simp [overrideType] at this
+
+/-- the witness is outside `plainRefs`, as it must be -/
+example : plainRefs {} (.node (some "Part".toList) { isOptional := true } []) = false := by decide +kernel
+
+end InheritedMemberCopy
 
 end Dcg.Props.C03
